@@ -23,7 +23,9 @@ from concurrent.futures import ThreadPoolExecutor
 from pathlib import Path
 
 VERIF = Path(__file__).resolve().parents[2]
-COQ = VERIF / "coq"
+# the Coq development; VERIF_COQ points a run against another tree (a seeded change, a mutant) to a private copy, so that
+# its regenerated coq/gen and the .vo files built on it never meet those of the runs against /repo
+COQ = Path(os.environ.get("VERIF_COQ", VERIF / "coq"))
 THEORIES = COQ / "theories"
 GEN = COQ / "gen"
 # scratch of a run (cases, logs, replay files); VERIF_BUILD lets a second run of the same property (mutant validation, a
